@@ -1,0 +1,144 @@
+//go:build verif
+
+// Accessors used only by the external verification harness (/verif). Built only with -tags verif.
+// Nothing here changes broker behaviour; every function reads state or calls an existing
+// unexported housekeeping function with an explicit time.
+
+package mqtt
+
+import (
+	"sort"
+	"sync/atomic"
+
+	"github.com/mochi-mqtt/server/v2/packets"
+)
+
+// VerifSched, when set, is called at the named schedule points (see verif_on.go). A blocking
+// implementation acts as a scheduler gate for interleaving replay.
+var VerifSched func(point string, cl *Client)
+
+// VerifOutboundQty returns the number of packets queued for the write loop.
+func (cl *Client) VerifOutboundQty() int32 { return atomic.LoadInt32(&cl.State.outboundQty) }
+
+// VerifQuotas returns the flow-control counters (send, receive, maximum send, maximum receive).
+func (cl *Client) VerifQuotas() (int32, int32, int32, int32) {
+	i := cl.State.Inflight
+	return atomic.LoadInt32(&i.sendQuota), atomic.LoadInt32(&i.receiveQuota),
+		atomic.LoadInt32(&i.maximumSendQuota), atomic.LoadInt32(&i.maximumReceiveQuota)
+}
+
+// VerifPacketID returns the packet id cursor.
+func (cl *Client) VerifPacketID() uint32 { return atomic.LoadUint32(&cl.State.packetID) }
+
+// VerifOutbufLen returns the number of bytes sitting in the client's write buffer.
+func (cl *Client) VerifOutbufLen() int {
+	cl.Lock()
+	defer cl.Unlock()
+	if cl.Net.outbuf == nil {
+		return 0
+	}
+	return cl.Net.outbuf.Len()
+}
+
+// VerifAliases returns copies of the inbound and outbound topic alias tables.
+func (cl *Client) VerifAliases() (map[uint16]string, map[string]uint16) {
+	in, out := map[uint16]string{}, map[string]uint16{}
+	if a := cl.State.TopicAliases.Inbound; a != nil {
+		a.RLock()
+		for k, v := range a.internal {
+			in[k] = v
+		}
+		a.RUnlock()
+	}
+	if a := cl.State.TopicAliases.Outbound; a != nil {
+		a.RLock()
+		for k, v := range a.internal {
+			out[k] = v
+		}
+		a.RUnlock()
+	}
+	return in, out
+}
+
+// VerifTick runs one housekeeping function with an explicit time.
+func (s *Server) VerifTick(kind string, dt int64) {
+	switch kind {
+	case "clients":
+		s.clearExpiredClients(dt)
+	case "retained":
+		s.clearExpiredRetainedMessages(dt)
+	case "inflight":
+		s.clearExpiredInflights(dt)
+	case "wills":
+		s.sendDelayedLWT(dt)
+	case "sys":
+		s.publishSysTopics()
+	}
+}
+
+// VerifDelayedWills returns the pending delayed will messages keyed by client id.
+func (s *Server) VerifDelayedWills() map[string]packets.Packet { return s.loop.willDelayed.GetAll() }
+
+// VerifReadStore performs the store-loading step of Serve without listeners or event loop.
+func (s *Server) VerifReadStore() error { return s.readStore() }
+
+// VerifSetMaxPacketID lowers the packet identifier space (the package's own test knob).
+func (s *Server) VerifSetMaxPacketID(n uint32) { s.Options.Capabilities.maximumPacketID = n }
+
+// VerifHooks exposes the hook chain (for harness-side scripted hooks and direct event injection).
+func (s *Server) VerifHooks() *Hooks { return s.hooks }
+
+// VerifInlineClient returns the inline client, if enabled.
+func (s *Server) VerifInlineClient() *Client { return s.inlineClient }
+
+// VerifTopicEntry is one subscription or retained-path entry found while walking the topic trie.
+type VerifTopicEntry struct {
+	Path   string               // the trie path (for shared subscriptions: the path after $share/<group>/)
+	Kind   string               // "client", "shared", "inline", "retain"
+	Client string               // client id (client, shared)
+	Group  string               // share group (shared)
+	ID     int                  // inline identifier
+	Sub    packets.Subscription // the stored subscription
+	Retain string               // retainPath (retain)
+}
+
+// VerifDumpTopics walks the whole topic trie.
+func (x *TopicsIndex) VerifDumpTopics() []VerifTopicEntry {
+	x.root.Lock()
+	defer x.root.Unlock()
+	var out []VerifTopicEntry
+	var walk func(n *particle, path string, depth int)
+	walk = func(n *particle, path string, depth int) {
+		if depth > 0 {
+			for c, s := range n.subscriptions.GetAll() {
+				out = append(out, VerifTopicEntry{Path: path, Kind: "client", Client: c, Sub: s})
+			}
+			for g, m := range n.shared.GetAll() {
+				for c, s := range m {
+					out = append(out, VerifTopicEntry{Path: path, Kind: "shared", Client: c, Group: g, Sub: s})
+				}
+			}
+			for id, s := range n.inlineSubscriptions.GetAll() {
+				out = append(out, VerifTopicEntry{Path: path, Kind: "inline", ID: id, Sub: s.Subscription})
+			}
+			if n.retainPath != "" {
+				out = append(out, VerifTopicEntry{Path: path, Kind: "retain", Retain: n.retainPath})
+			}
+		}
+		kids := n.particles.getAll()
+		keys := make([]string, 0, len(kids))
+		for k := range kids {
+			keys = append(keys, k)
+		}
+		sort.Strings(keys)
+		for _, k := range keys {
+			p := k
+			if depth > 0 {
+				p = path + "/" + k
+			}
+			walk(kids[k], p, depth+1)
+		}
+	}
+	walk(x.root, "", 0)
+	return out
+}
